@@ -517,7 +517,13 @@ func TestVerifC19Handler(t *testing.T) {
 		}
 		out.Count("handler_l2_evaluated")
 		last := req[len(req)-1]
-		if last.content != "" && !strings.Contains(got.Prompt, fmt.Sprintf("m%dq", len(req)-1)) {
+		// (through the OpenAI entry the converted messages are renumbered and a content may be split into parts: there
+		// the latest converted message's whole text must be in the prompt)
+		latestMark := fmt.Sprintf("m%dq", len(req)-1)
+		if oreq != nil {
+			latestMark = last.content
+		}
+		if last.content != "" && !strings.Contains(got.Prompt, latestMark) {
 			out.L2("handler-latest-missing", line, fmt.Sprintf("the request's latest message (role %s) is not in the prompt sent to the runner", last.role))
 		}
 		if sys != "" && req[0].role != "s" && !strings.Contains(got.Prompt, "y0q") {
